@@ -3,7 +3,7 @@ import Mathlib.Analysis.SpecialFunctions.Log.Basic
 import Mathlib.Algebra.BigOperators.Fin
 import Mathlib.Tactic
 
-noncomputable instance : Transc ℝ := ⟨Real.exp, Real.log, Real.sqrt, Real.pi⟩
+noncomputable instance : Transc ℝ := ⟨Real.exp, Real.log, Real.sqrt, Real.pi, fun n => (n : ℝ)⟩
 
 open Finset BobEM
 
